@@ -45,6 +45,8 @@ def plan(tier, seed):
         specs.append(dict(kind='seq', seed=seed, shard=i, n=600 if q else 20000))
     for i in range(2 if q else 8):
         specs.append(dict(kind='unpriv', seed=seed, shard=i, n=3000 if q else 60000))
+    for i in range(4 if q else 16):
+        specs.append(dict(kind='sysrows', seed=seed, shard=i, of=4 if q else 16, cap=1200 if q else 40000))
     return specs
 
 
@@ -330,6 +332,43 @@ def run_shard(spec):
                 if (w >> 11) in (0b11101, 0b11110, 0b11111):
                     w &= 0x7FFF
             mon.one_user(k, w, 'r%d' % (w >> (26 if k != 't16' else 10)))
+    elif kind == 'sysrows':
+        # every system-level / bank-naming instruction of the reference tables (SRS, RFE, CPS, MSR, MRS, exception returns,
+        # LDM/STM user registers, SMC, coprocessor accesses, SETEND, hints) in User mode, with ALL values of its narrow fields
+        # (mode numbers, masks, P/U/W) x registers {0, 1, SP, LR, PC}: whatever such an instruction does in User mode -
+        # UNPREDICTABLE included - it must not reach another mode's registers or privileged state
+        import itertools
+        from vf.props import _decode as D
+        from vf.ref.step import tables
+        SYS = ('srs', 'rfe', 'cps', 'msr_sys', 'msr_app', 'mrs', 'subs_pc_lr', 'subs_pc_lr_thumb', 'eret', 'ldm_user', 'stm_user', 'ldm_eret',
+               'smc', 'svc', 'cp', 'setend', 'wfe', 'wfi', 'sev', 'bkpt', 'bxj', 'enterx')
+        for kname, table in tables().items():
+            rows = [r for r in table.rows if r.sem and r.sem.split(':')[0] in SYS]
+            for ri, row in enumerate(rows):
+                if ri % spec['of'] != spec['shard']:
+                    continue
+                letters = list(row.fields)
+                cands = [D.field_candidates(ch, len(row.fields[ch]), row) if len(row.fields[ch]) != 5 else list(range(32))
+                         for ch in letters]
+                total = 1
+                for c in cands:
+                    total *= len(c)
+                combos = itertools.product(*cands) if total <= spec['cap'] else (tuple(rng.choice(c) for c in cands) for _ in range(spec['cap']))
+                free = ~(row.mask | row.sb_mask) & ((1 << row.width) - 1)
+                for bits_ in row.fields.values():
+                    for b in bits_:
+                        free &= ~(1 << b)
+                for combo in combos:
+                    w = row.value | row.sb_value
+                    for ch, v in zip(letters, combo):
+                        bits_ = row.fields[ch]
+                        kk = len(bits_)
+                        for i_, b in enumerate(bits_):
+                            if (v >> (kk - 1 - i_)) & 1:
+                                w |= 1 << b
+                    w |= rng.getrandbits(row.width) & free
+                    mon.bump('sysrow_words')
+                    mon.one_user(kname, w, 'sys-' + row.name)
     elif kind == 'seq':
         for i in range(spec['n']):
             thumb = rng.random() < 0.5
@@ -378,6 +417,8 @@ def finish(agg, tier, seed):
         inc.append('Thumb-16 space not covered completely')
     if c.get('path_enumeration_incomplete', 0):
         inc.append('decoder path enumeration incomplete')
+    if c.get('sysrow_words', 0) < 5000:
+        inc.append('too few system-instruction words in User mode (%d)' % c.get('sysrow_words', 0))
     if c.get('unpriv_on_background_only_address', 0) < 100:
         inc.append('too few unprivileged-variant accesses to addresses only the background region covers (%d)' % c.get('unpriv_on_background_only_address', 0))
     if c.get('unpriv_unaligned_on_protected', 0) < 100:
